@@ -6,7 +6,8 @@ Clauses (exactly the property text):
   loss      a message the engine produced while disconnected (runner in Failed/Disconnected/Reconnecting when
             it was created, or one of its send attempts failed with the network error, or it was buffered) is
             received by the aggregator once the runner is back in steady state with nothing buffered / in flight
-  stranded  state == Reconnected  =>  buffer empty
+  stranded  state == Reconnected  =>  buffer empty   (what follows from a stranded message — it is never
+            delivered, the stop overtakes it, the runner never reaches an empty buffer — is not reported again)
   dup       a second receipt of a message only after a failed attempt of that message
   seq       one sequence number per message, kept across resends, unique
   order     run data of run r that was buffered before the stop notification of r was posted is received
@@ -84,9 +85,12 @@ def check(res) -> list[tuple[str, str]]:
                 failed_before = True
 
     # --- stranded
+    stranded_ids: set[int] = set()
     for s in res.stranded:
+        stranded_ids.update(s["ids"])
+    if res.stranded:
+        s = res.stranded[0]
         out.append(("buffer-not-empty-while-reconnected", f"t={s['t']}: state Reconnected, buffer {s['ids']}"))
-        break
 
     # --- loss
     if res.quiescent:
@@ -94,7 +98,7 @@ def check(res) -> list[tuple[str, str]]:
         for i, p in sorted(prod.items()):
             disconnected = p["state"] in ("Failed", "Disconnected", "Reconnecting") or i in failed_ids \
                 or i in res.buffered_ids
-            if disconnected and i not in first_recv:
+            if disconnected and i not in first_recv and i not in stranded_ids:
                 why = ("its send failed and it was never buffered" if i in failed_ids and i not in res.buffered_ids
                        else "it was buffered")
                 key = ("failed-send-never-buffered" if i in failed_ids and i not in res.buffered_ids
@@ -102,7 +106,8 @@ def check(res) -> list[tuple[str, str]]:
                 out.append((key, f"message {i} ({p['kind']}{p['run']}) never reached the aggregator although the "
                                  f"runner is back in {res.final_state} with an empty buffer; {why}"))
                 break
-    elif not res.errors:
+    elif not res.errors and not (stranded_ids and res.final_state == "Reconnected"
+                                 and set(res.final_buffer) <= stranded_ids):
         out.append(("runner-never-catches-up", f"no steady state with empty buffer before t={res.t_end}; "
                                                f"state {res.final_state}, buffer {res.final_buffer}"))
 
@@ -113,10 +118,10 @@ def check(res) -> list[tuple[str, str]]:
         if s not in first_recv or s not in post_at:
             continue
         for d, p in sorted(prod.items()):
-            if p["kind"] == "d" and p["run"] == run and d in buf_at and buf_at[d] < post_at[s]:
+            if p["kind"] == "d" and p["run"] == run and d in buf_at and buf_at[d] < post_at[s] \
+                    and d not in stranded_ids:
                 if d not in first_recv or first_recv[d] > first_recv[s]:
                     # how did the stop get ahead?
-                    att = res.received[first_recv[s]]["attempt"]
                     if post_how[s] == "S@Cu":
                         how = "sent-directly-while-catching-up"
                     elif s in buf_at:
